@@ -1,7 +1,8 @@
 /-
 Lane `edit` (property C07): one case = token list + cut positions + handler scripts; the observation
 is the sink bytes, the number of invocations of every handler, and the bytes the *documented* edit
-would give (model side: `Spec.EditDoc.rewrite`; implementation side: the harness's reference editor).
+would give (model side: `Spec.EditDoc.rewrite`; implementation side: the harness's reference editor),
+and two flags: `cleanRun` and `tidyRun` (the hypotheses of the whole-document statement / theorem).
 
 Case syntax (three blank-separated fields, every byte string lower-case hex, `-` = empty):
   tokens   `;`-separated (or `-`):  T:<raw> | S:<raw>:<name>:<selfclosing 0/1>:<ns 0=html 1=foreign>:<attrs>
@@ -182,7 +183,7 @@ def run (line : String) : String :=
       -- harness's independent reference editor
       let spec := Spec.EditDoc.rewrite H encUtf8 stream
       if res.1.fault || res.1.faultRemoved then some "PANIC model-fault"
-      else some s!"{hexOrDash res.2} {natListStr ((List.range H.length).map res.1.inv)} {hexOrDash spec} {if Spec.EditDoc.cleanRun H encUtf8 {} stream then 1 else 0}"
+      else some s!"{hexOrDash res.2} {natListStr ((List.range H.length).map res.1.inv)} {hexOrDash spec} {if Spec.EditDoc.cleanRun H encUtf8 {} stream then 1 else 0}{if Spec.EditDoc.tidyRun H encUtf8 {} stream then 1 else 0}"
     r.getD "bad-case"
   | _ => "bad-case"
 
